@@ -23,6 +23,26 @@ func init() { RegisterCheck("C20", CheckC20) }
 
 type tagKey struct{}
 
+// tagTransport copies the call's tag from the request context into the header.
+type tagTransport struct{ base http.RoundTripper }
+
+func (t tagTransport) RoundTrip(req *http.Request) (*http.Response, error) {
+	if tag, ok := req.Context().Value(tagKey{}).(string); ok {
+		req = req.Clone(req.Context())
+		req.Header.Set("X-Verif-Tag", tag)
+	}
+	return t.base.RoundTrip(req)
+}
+
+// slowWriter yields before it copies the bytes handed to Write.
+type slowWriter struct{ *httptest.ResponseRecorder }
+
+func (w *slowWriter) Write(b []byte) (int, error) {
+	runtime.Gosched()
+	runtime.Gosched()
+	return w.ResponseRecorder.Write(b)
+}
+
 // plainReader implements io.ReadCloser and nothing else; it hands its content out in
 // a few chunks and yields between them.
 type plainReader struct {
@@ -185,16 +205,20 @@ func CheckC20(p *Pkg, e *Env, r *res.Result) {
 		r.Label("packages-without-testable-operations")
 		return
 	}
-	rounds := 3
+	rounds := 6
 	if !e.Quick() {
-		rounds = 12
+		rounds = 24
+	}
+	// the hand-built kitchen-sink packages hold every feature at once: more rounds there
+	if fmt.Sprint(p.Meta["origin"]) == "kitchen-sink" {
+		rounds *= 10
 	}
 	var lastFail *res.Failure
 	prop := func(t *rapid.T) {
 		n := rapid.SampledFrom([]int{16, 32, 64}).Draw(t, "goroutines")
 		perG := rapid.IntRange(1, 3).Draw(t, "calls_per_goroutine")
 		procs := rapid.SampledFrom([]int{1, 2, 4, 16}).Draw(t, "gomaxprocs")
-		useServer := rapid.IntRange(0, 2).Draw(t, "loopback") == 0
+		useServer := rapid.IntRange(0, 2).Draw(t, "loopback") != 0
 		nmw := rapid.IntRange(0, 3).Draw(t, "middlewares")
 		ci := newConcurrentInst(p)
 		// middlewares appended one at a time (capacity > length) and yielding
@@ -218,12 +242,13 @@ func CheckC20(p *Pkg, e *Env, r *res.Result) {
 		distinctOps := map[string]bool{}
 		// in a third of the rounds every handler answers with one shared, read-only response
 		// value per response type (static data: the same maps and slices go to every caller)
-		sharedResponses := rapid.IntRange(0, 2).Draw(t, "shared_responses") == 0
+		sharedResponses := rapid.Bool().Draw(t, "shared_responses")
 		type sharedResp struct {
 			v   reflect.Value
 			raw []byte
 		}
 		shared := map[reflect.Type]sharedResp{}
+		sharedParams := map[*Op]sharedResp{}
 		_, hasSpecHandler := p.Funcs["SpecFileHandler"]
 		for g := 0; g < n; g++ {
 			var seq []*plannedCall
@@ -234,6 +259,15 @@ func CheckC20(p *Pkg, e *Env, r *res.Result) {
 				}
 				oi := ops[rapid.IntRange(0, len(ops)-1).Draw(t, fmt.Sprintf("op_%d_%d", g, k))]
 				params, raw, _ := GenParams(t, p, oi.op, nil)
+				if sharedResponses {
+					// likewise one shared, read-only parameter value per operation (a template
+					// request sent by many goroutines)
+					if sp, ok := sharedParams[oi.op]; ok {
+						params, raw = sp.v, sp.raw
+					} else {
+						sharedParams[oi.op] = sharedResp{params, raw}
+					}
+				}
 				info := oi.infos[rapid.IntRange(0, len(oi.infos)-1).Draw(t, fmt.Sprintf("impl_%d_%d", g, k))]
 				resp, respRaw, _ := genResponse(t, p, info, oi.docs)
 				if sharedResponses {
@@ -271,7 +305,9 @@ func CheckC20(p *Pkg, e *Env, r *res.Result) {
 					req.Body = http.NoBody
 				}
 				rec := httptest.NewRecorder()
-				ci.h.ServeHTTP(rec, req)
+				// the writer takes its time before it consumes what it is given (a slow
+				// connection): whatever the server wrote must still be intact then
+				ci.h.ServeHTTP(&slowWriter{ResponseRecorder: rec}, req)
 				return rec.Result(), nil
 			}
 		}
@@ -300,6 +336,19 @@ func CheckC20(p *Pkg, e *Env, r *res.Result) {
 		if err != nil {
 			r.Inconclusive = append(r.Inconclusive, err.Error())
 			return
+		}
+		// over loopback, half of the rounds hand the generated Client a real *http.Client
+		// (shared by all goroutines, with the caller's own redirect policy) instead of a
+		// function adapter
+		var realHC *http.Client
+		if useServer && rapid.Bool().Draw(t, "real_http_client") {
+			base := srv.Client()
+			realHC = &http.Client{Transport: tagTransport{base.Transport}, CheckRedirect: func(req *http.Request, via []*http.Request) error { return http.ErrUseLastResponse }}
+			if !SetHTTPClient(client, realHC) {
+				realHC = nil
+			} else {
+				r.Label("client:real-http-client")
+			}
 		}
 		old := runtime.GOMAXPROCS(procs)
 		defer runtime.GOMAXPROCS(old)
@@ -352,6 +401,20 @@ func CheckC20(p *Pkg, e *Env, r *res.Result) {
 				ci.failTag(pc.tag, fmt.Sprintf("tag %s (%s): caller received a response that is not the one produced for its request: %s", pc.tag, pc.op, why))
 			}
 		}
+		// pristine deep copies of every planned value (shared ones are copied once)
+		pristine := map[reflect.Value]reflect.Value{}
+		for _, seq := range plans {
+			for _, pc := range seq {
+				if pc.spec {
+					continue
+				}
+				for _, v := range []reflect.Value{pc.resp, pc.params} {
+					if _, done := pristine[v]; !done && v.IsValid() {
+						pristine[v] = deepCopyValue(v)
+					}
+				}
+			}
+		}
 		// baseline: every planned call once, alone
 		ci.baseline = map[string]bool{}
 		ci.recordingRef = true
@@ -361,9 +424,27 @@ func CheckC20(p *Pkg, e *Env, r *res.Result) {
 			}
 		}
 		ci.recordingRef = false
+		// the baseline must not have "warmed up" the shared values: the concurrent phase
+		// starts from pristine copies taken before the baseline touched them
+		for _, seq := range plans {
+			for _, pc := range seq {
+				if pc.spec {
+					continue
+				}
+				if cp, ok := pristine[pc.resp]; ok {
+					pc.resp = cp
+				}
+				if cp, ok := pristine[pc.params]; ok {
+					pc.params = cp
+				}
+			}
+		}
 		// the concurrent phase uses a fresh Client value (first calls race too)
 		if fresh, ferr := NewClient(p, base, do); ferr == nil {
 			client = fresh
+			if realHC != nil {
+				SetHTTPClient(client, realHC)
+			}
 		}
 		var wg sync.WaitGroup
 		start := make(chan struct{})
@@ -410,4 +491,48 @@ func CheckC20(p *Pkg, e *Env, r *res.Result) {
 	if !ok && lastFail != nil {
 		r.Fail(*lastFail)
 	}
+}
+
+// deepCopyValue copies structs, slices, maps and pointers recursively (interfaces,
+// readers included, are shared: raw bodies get fresh readers per call anyway).
+func deepCopyValue(v reflect.Value) reflect.Value {
+	out := reflect.New(v.Type()).Elem()
+	switch v.Kind() {
+	case reflect.Struct:
+		if v.Type() == timeType {
+			out.Set(v)
+			return out
+		}
+		out.Set(v) // unexported fields
+		for i := 0; i < v.NumField(); i++ {
+			if v.Type().Field(i).IsExported() {
+				out.Field(i).Set(deepCopyValue(v.Field(i)))
+			}
+		}
+	case reflect.Slice:
+		if v.IsNil() {
+			return out
+		}
+		out.Set(reflect.MakeSlice(v.Type(), v.Len(), v.Len()))
+		for i := 0; i < v.Len(); i++ {
+			out.Index(i).Set(deepCopyValue(v.Index(i)))
+		}
+	case reflect.Map:
+		if v.IsNil() {
+			return out
+		}
+		out.Set(reflect.MakeMapWithSize(v.Type(), v.Len()))
+		for _, k := range v.MapKeys() {
+			out.SetMapIndex(k, deepCopyValue(v.MapIndex(k)))
+		}
+	case reflect.Ptr:
+		if v.IsNil() {
+			return out
+		}
+		out.Set(reflect.New(v.Type().Elem()))
+		out.Elem().Set(deepCopyValue(v.Elem()))
+	default:
+		out.Set(v)
+	}
+	return out
 }
